@@ -297,6 +297,16 @@ pub fn worker(prop: &dyn Property, tier: Tier, seed: u64, shard: usize, nshards:
 				}
 				continue;
 			}
+			// a witness is a tape: when the generators change it may decode to another case than the
+			// one it was recorded for (the recorded Debug text is kept in the file)
+			let recorded = std::fs::read_to_string(&path).ok().and_then(|t| serde_json::from_str::<Value>(&t).ok()).and_then(|v| v["case"].as_str().map(|s| s.to_string())).unwrap_or_default();
+			if !recorded.is_empty() && !recorded.starts_with("(case did not return") {
+				let now = describe(prop, &tape, tier, true);
+				if !now.is_empty() && now != recorded {
+					println!("NOTE {} witness {} no longer decodes to its recorded case (the generator changed since); it is replayed as it decodes now", prop.id(), k.witness);
+					*st.res.counters.entry("stale-witnesses".to_string()).or_insert(0) += 1;
+				}
+			}
 			let mut ctx = Ctx::new(tier);
 			ctx.include_known = true;
 			let r = run_case(prop, &tape, &mut ctx);
